@@ -1,5 +1,4 @@
-import SciVerif.Drive.Util
+import SciVerif.Drive.C10
 open Lean SciVerif.Drive
 
-/-- C10 model driver: not built yet. -/
-def main : IO Unit := serve (fun _ => throw "C10: no model yet")
+def main : IO Unit := serve SciVerif.C10.Drive.handle
